@@ -1,3 +1,210 @@
 import B6.Driver.Common
-/-! Driver for C08 — stub (the check for this property is not built yet). -/
-def main : IO Unit := B6.Driver.run { σ := Unit, init := (), step := fun s _ _ => (s, .bad) }
+import B6.Model.Posting
+import B6.Spec.Cursor
+/-!
+Driver for C08 (posting lists).  Ops written by harness/cmd/c08:
+
+  `table [names]`             answer `[FromEncoded]`             (`""` is written `_`)
+  `fill <token> [t:ns:v …]`   answer `<hex of PostingList.Marshal>` | `panic`
+  `iter`                      answer `ok`
+  `next`                      answer `true t:ns:v` | `false` | `panic`
+  `adv t:ns:v`                answer `true t:ns:v` | `false` | `panic`
+
+Every answer is recomputed with `B6.Model.Posting` (the model the theorems of `B6.Props.C08` are about):
+`fillFromNamespaces`, `marshal (fill …)` byte for byte, `next`, `advance`.  The iterator model runs on the posting
+list **unmarshalled from the implementation's bytes**, so a wrong encoder shows up in the reads as well.
+
+Property predicate (evaluated on the implementation's answers, on the property's domain = table strictly
+sorted, ids valid and strictly increasing, target namespace in the table, no `false` answered yet):
+* `fill`: the model decoder drains the implementation's bytes to exactly the ids given (`roundtrip`);
+* `next` / `adv k`: the answer is the one of the spec cursor `B6.Spec.Cursor` over the id list (`next` / `advance`).
+Outside the domain only the model answer is compared (`diff`).
+After a disagreement the model iterator and the cursor are re-synchronised on the id the implementation reported.
+-/
+open B6.Driver B6.Model.Posting B6.Model.Varint
+open B6.Spec.Cursor (Cursor)
+namespace B6.Driver.C08
+
+def nameOfWord (w : String) : String := if w == "_" then "" else w
+def wordOfName (n : String) : String := if n == "" then "_" else n
+
+def parseKey (w : String) : Option Key :=
+  match w.splitOn ":" with
+  | [t, ns, v] =>
+    match t.toNat?, v.toNat? with
+    | some t, some v => if v < 2 ^ 64 then some ⟨t, nameOfWord ns, v⟩ else none
+    | _, _ => none
+  | _ => none
+
+def renderKey (k : Key) : String := s!"{k.type}:{wordOfName k.ns}:{k.value}"
+
+def renderErr : Err → String
+  | .panic => "panic"
+  | .corrupt => "corrupt"
+  | .fuel => "fuel"
+
+structure St where
+  tbl : Table := ⟨[]⟩
+  tblOK : Bool := false          -- names strictly increasing (no duplicate)
+  ids : List Id := []
+  inDomain : Bool := false
+  pl : PostingList := ⟨⟨[], 0, []⟩, []⟩
+  it : It := It.start
+  cursor : Cursor := B6.Spec.Cursor.start []
+  live : Bool := false           -- an iterator exists and has not answered `false` / `panic` yet
+
+def strictNames : List String → Bool
+  | [] => true
+  | [_] => true
+  | a :: b :: rest => decide (a < b) && strictNames (b :: rest)
+
+def idOfNat (x : Nat) : Id := (x / 2 ^ 64, x % 2 ^ 64)
+
+/-- answer text for a successful call landing on iterator state `it` -/
+def renderTrue (st : St) (it : It) : String :=
+  match featureID st.pl st.tbl it with
+  | .ok k => "true " ++ renderKey k
+  | .error e => renderErr e
+
+def renderRes (st : St) : Except Err (Bool × It) → String
+  | .ok (true, it) => renderTrue st it
+  | .ok (false, _) => "false"
+  | .error e => renderErr e
+
+/-- spec answer: the cursor result rendered through the table -/
+def renderSpec (st : St) (r : Bool × Cursor) : String :=
+  if r.1 then
+    match r.2.cur with
+    | some x => match st.tbl.decodeId (idOfNat x) with
+      | .ok k => "true " ++ renderKey k
+      | .error e => renderErr e
+    | none => "spec-error"
+  else "false"
+
+/-- model iterator state after the implementation reported `id`: walk from the start -/
+def findState (p : PostingList) (target : Id) : Nat → It → Option It
+  | 0, _ => none
+  | fuel + 1, it =>
+    match next p it with
+    | .ok (true, it') =>
+      match cur p it' with
+      | .ok id => if id = target then some it' else findState p target fuel it'
+      | .error _ => none
+    | _ => none
+
+/-- cursor positioned on `x` -/
+def cursorAt (xs : List Nat) (x : Nat) : Option Cursor :=
+  let before := xs.takeWhile (· ≠ x)
+  match xs.drop before.length with
+  | y :: rest => some ⟨before ++ [y], rest⟩
+  | [] => none
+
+/-- re-synchronise on the implementation's answer -/
+def resync (st : St) (impl : String) (modelIt : It) : St :=
+  match words impl with
+  | ["true", w] =>
+    match parseKey w with
+    | some k =>
+      match st.tbl.encodeKey k with
+      | .ok id =>
+        let it := (findState st.pl id (st.pl.ids.length + 1) It.start).getD modelIt
+        match cursorAt st.cursor.xs (keyNat id) with
+        | some c => { st with it := it, cursor := c }
+        | none => { st with it := it, live := false }
+      | .error _ => { st with it := modelIt, live := false }
+    | none => { st with it := modelIt, live := false }
+  | _ => { st with it := modelIt, live := false }
+
+def firstDiff : List UInt8 → List UInt8 → Nat → Nat
+  | a :: as, b :: bs, n => if a = b then firstDiff as bs (n + 1) else n
+  | _, _, n => n
+
+def stepCall (st : St) (impl : String) (model : Except Err (Bool × It)) (spec : Option (Bool × Cursor))
+    (clause : String) : St × Verdict :=
+  let m := renderRes st model
+  let modelIt := match model with | .ok (_, it) => it | .error _ => st.it
+  let specAns := spec.map (renderSpec st)
+  let verdict : Verdict :=
+    match specAns with
+    | some s => if impl == s then (if impl == m then .ok else .diff m) else .propfail clause
+    | none => if impl == m then .ok else .diff m
+  let agree := impl == m && (match specAns with | some s => impl == s | none => true)
+  let st' :=
+    if agree then
+      match model, spec with
+      | .ok (true, it), some (_, c) => { st with it := it, cursor := c }
+      | .ok (true, it), none => { st with it := it }
+      | .ok (false, it), _ => { st with it := it, live := false }
+      | .error _, _ => { st with live := false }
+    else resync st impl modelIt
+  (st', verdict)
+
+def step (st : St) (op impl : String) : St × Verdict :=
+  match words op with
+  | "table" :: _ =>
+    match parseBracket (sdrop op 6), parseBracket impl with
+    | some ws, some out =>
+      let m := fillFromNamespaces (ws.map nameOfWord)
+      let implNames := out.map nameOfWord
+      let mText := renderList (m.names.map wordOfName)
+      -- order-preserving encoding: FromEncoded must be ascending
+      let asc := strictNames implNames || implNames == m.names
+      ({ tbl := ⟨implNames⟩, tblOK := strictNames implNames },
+        if !asc then .propfail "table-order" else if impl == mText then .ok else .diff mText)
+    | _, _ => (st, .bad)
+  | "fill" :: tok :: _ =>
+    match parseBracket (sdrop op (5 + tok.length + 1)) with
+    | none => (st, .bad)
+    | some ws =>
+      match ws.mapM parseKey with
+      | none => (st, .bad)
+      | some keys =>
+        match keys.mapM (fun k => match st.tbl.encodeKey k with | .ok id => some id | .error _ => none) with
+        | none =>
+          ({ st with ids := [], inDomain := false, live := false }, if impl == "panic" then .ok else .diff "panic")
+        | some ids =>
+          let inDomain := st.tblOK && ids.all validId && sortedChain ids &&
+            keys.all (fun k => decide (k.type < 8)) && decide (st.tbl.names.length ≤ 8192)
+          let mpl := fill tok.toUTF8.toList ids
+          let mbytes := marshal mpl
+          match parseHex impl with
+          | none =>
+            ({ st with ids := ids, inDomain := inDomain, pl := mpl, live := false },
+              if inDomain then .propfail "roundtrip" else .diff "bytes")
+          | some ibytes =>
+            let ipl := unmarshal ibytes
+            let pl := ipl.getD mpl
+            let rtOK := match ipl with
+              | some p => drain p == some ids && p.header.features == ids.length
+              | none => false
+            let st' := { st with ids := ids, inDomain := inDomain, pl := pl, live := false,
+                                 cursor := B6.Spec.Cursor.start (ids.map keyNat) }
+            if inDomain && !rtOK then (st', .propfail "roundtrip")
+            else if ibytes == mbytes then (st', .ok)
+            else (st', .diff s!"bytes-differ-at-{firstDiff ibytes mbytes 0}")
+  | ["iter"] =>
+    ({ st with it := It.start, cursor := B6.Spec.Cursor.start (st.ids.map keyNat), live := true },
+      if impl == "ok" then .ok else .diff "ok")
+  | ["next"] =>
+    let model := next st.pl st.it
+    let spec := if st.inDomain && st.live then some st.cursor.next else none
+    stepCall st impl model spec "next"
+  | ["adv", w] =>
+    match parseKey w with
+    | none => (st, .bad)
+    | some key =>
+      let model := advance st.pl st.tbl key st.it
+      let spec :=
+        if st.inDomain && st.live && key.type < 8 then
+          match st.tbl.encodeKey key with
+          | .ok id => some (st.cursor.advance (keyNat id))
+          | .error _ => none
+        else none
+      stepCall st impl model spec "advance"
+  | _ => (st, .bad)
+
+def family : Family := { σ := St, init := {}, step := step }
+
+end B6.Driver.C08
+
+def main : IO Unit := B6.Driver.run B6.Driver.C08.family
